@@ -66,8 +66,6 @@ structure GoodFS (cfg : Cfg) (fs : FS Name) : Prop where
   /-- a piece marked complete on disk holds the blob's bytes -/
   pieces : ∀ d st, fs.file? (entryDir cfg false) .data = some d → fs.file? (entryDir cfg false) .status = some st →
     st.length = numPieces cfg → ∀ i, i < numPieces cfg → st[i]? = some 1 → PieceOK cfg d i
-  stdata : (fs.file? (entryDir cfg false) .status).isSome = true →
-    (fs.file? (entryDir cfg false) .data).isSome = true ∨ (fs.file? (entryDir cfg true) .data).isSome = true
 
 /-- the three files the invariant talks about -/
 def key3 (cfg : Cfg) : List (Path × Name) :=
@@ -84,7 +82,7 @@ theorem goodFS_congr {cfg : Cfg} {fs fs' : FS Name} (h : ∀ x ∈ key3 cfg, fs'
   have h3 := h (entryDir cfg true, .data) (by simp [key3])
   simp only at h1 h2 h3
   exact ⟨by rw [h3]; exact g.cacheOK, by rw [h1, h3]; exact g.one, by rw [h1]; exact g.dlen,
-    by rw [h2]; exact g.stlen, by rw [h1, h2]; exact g.pieces, by rw [h1, h2, h3]; exact g.stdata⟩
+    by rw [h2]; exact g.stlen, by rw [h1, h2]; exact g.pieces⟩
 
 theorem key3_applyPrefix_neutral (cfg : Cfg) (cs : List (Call Name)) (hn : ∀ c ∈ cs, Neutral cfg c) (fs : FS Name) (k : Nat) :
     ∀ x ∈ key3 cfg, (applyPrefix k cs fs).file? x.1 x.2 = fs.file? x.1 x.2 := by
